@@ -1,8 +1,33 @@
 // Generates Rust bindings for the IDL corpus with /repo's *current* varlink_generator,
 // exactly as the repository's own build scripts do.
+//
+// One textual substitution is applied to the emitted code: the generator hard-codes
+// `use std::sync::{Arc, RwLock};` for the client stubs' `Arc<RwLock<varlink::Connection>>`.
+// The simulator compiles /repo/varlink with the connection lock taken from shuttle
+// (cfg varlink_rust_verif_clientsync), so the stubs must name the same lock type. Nothing else
+// of the generated code is touched; the build fails if the import is not found exactly once.
+use std::path::PathBuf;
+
+fn gen(idl: &str, out_name: &str) {
+    varlink_generator::cargo_build(idl);
+    let out = PathBuf::from(std::env::var("OUT_DIR").unwrap()).join(out_name);
+    let text = std::fs::read_to_string(&out).expect("generated file");
+    let compact = "use std::sync::{Arc, RwLock};";
+    let spaced = "use std :: sync :: { Arc , RwLock } ;";
+    let n = text.matches(compact).count() + text.matches(spaced).count();
+    assert_eq!(n, 1, "expected exactly one `use std::sync::{{Arc, RwLock}}` in {}", out.display());
+    let text = text
+        .replace(compact, "use shuttle::sync::{Arc, RwLock};")
+        .replace(spaced, "use shuttle :: sync :: { Arc , RwLock } ;");
+    std::fs::write(&out, text).expect("rewrite generated file");
+    println!("cargo:rerun-if-changed={}", idl);
+}
+
 fn main() {
-    varlink_generator::cargo_build("/repo/varlink-certification/src/org.varlink.certification.varlink");
-    varlink_generator::cargo_build("/repo/examples/ping/src/org.example.ping.varlink");
-    varlink_generator::cargo_build("/repo/examples/more/src/org.example.more.varlink");
+    gen("/repo/varlink-certification/src/org.varlink.certification.varlink", "org.varlink.certification.rs");
+    gen("/repo/examples/ping/src/org.example.ping.varlink", "org.example.ping.rs");
+    gen("/repo/examples/more/src/org.example.more.varlink", "org.example.more.rs");
     println!("cargo:rerun-if-changed=/repo/varlink-certification/src/main.rs");
+    println!("cargo:rerun-if-changed=/repo/varlink_generator/src/lib.rs");
+    println!("cargo:rerun-if-changed=build.rs");
 }
